@@ -2,7 +2,7 @@
 crate calls.  This table is part of the trusted base; the evidence lists the models a run used."""
 import re
 
-from .absint import (I, Fl, Ag, En, Sq, Pt, Top, Md, UNIT, Unsupported, Diverge, INF, ISIZE_MAX, USIZE_MAX, map_value)
+from .absint import (pinned, I, Fl, Ag, En, Sq, Pt, Top, Md, UNIT, BOT, Bot, Unsupported, Diverge, INF, ISIZE_MAX, USIZE_MAX, map_value)
 
 NONE, SOME = 0, 1
 OK, ERR = 0, 1
@@ -132,8 +132,7 @@ def le_proved(E, st, a, b):
 
 # ---------------------------------------------------------------------------------- Vec / slices
 def m_vec_new(E, st, fr, bi, callee, args, dest_ty):
-    et = elem_ty_of(E, dest_ty)
-    return ret1(Sq(E.ctx.top_value(st, et), usize(E, st, 0), None, None), st)
+    return ret1(Sq(BOT, usize(E, st, 0), None, None), st)
 
 
 def m_vec_with_capacity(E, st, fr, bi, callee, args, dest_ty):
@@ -430,8 +429,9 @@ def it_next(E, st, fr, bi, it):
             if item is None:
                 outs.append((None, nit, s2))
             else:
-                for r, s3 in call_closure(E, s2, fr, bi, it.d["f"], it.d["fty"], [item]):
-                    outs.append((r, nit, s3))
+                with pinned(E.ctx, nit, it):
+                    for r, s3 in call_closure(E, s2, fr, bi, it.d["f"], it.d["fty"], [item]):
+                        outs.append((r, nit, s3))
         return outs
     if k in ("copied", "cloned"):
         outs = []
@@ -461,7 +461,9 @@ def it_next(E, st, fr, bi, it):
                 d["a"] = na
                 outs.append((None, Md("iter", d), s2))
                 continue
-            for ib, nb, s3 in it_next(E, s2, fr, bi, it.d["b"]):
+            with pinned(E.ctx, ia, na, it):
+                inner_b = it_next(E, s2, fr, bi, it.d["b"])
+            for ib, nb, s3 in inner_b:
                 d = dict(it.d)
                 d["a"], d["b"] = na, nb
                 outs.append((None if ib is None else Ag((ia, ib)), Md("iter", d), s3))
@@ -607,12 +609,37 @@ def int_min(E, st, a, b):
     return m
 
 
+def import_value(E, st, src, v):
+    """copy a value that lives in state `src` into state `st` (fresh vids, same intervals)"""
+    if type(v) is Pt:
+        v = deref(E, src, v)
+    return map_value(v, lambda i: E.ctx.mk_int(st, *src.itv[i.vid], i.ty, taint=(i.vid in src.taint)))
+
+
+def pure_env(E, st, it):
+    """closures run on a smashed copy of the iterator: refuse closures that can write caller memory"""
+    k = it.d["k"]
+    if k == "map":
+        for _, p in ((None, x) for x in (it.d["f"].f if type(it.d["f"]) is Ag else ())):
+            if type(p) is Pt and p.mut and p.key is not None:
+                tgt = E.load(st, p.key, p.proj)
+                while type(tgt) is Pt and tgt.key is not None:
+                    tgt = E.load(st, tgt.key, tgt.proj)
+                if not (type(tgt) is Md and tgt.kind == "rng"):
+                    raise Unsupported("closure with mutable capture in a bulk iterator operation")
+    for f in ("inner", "a", "b"):
+        if f in it.d and type(it.d[f]) is Md:
+            pure_env(E, st, it.d[f])
+
+
 def it_elem(E, st, fr, bi, it):
-    """abstraction of any item the iterator may yield (None if it is certainly empty)"""
+    """abstraction (valid in `st`) of any item the iterator may yield; None if certainly empty"""
+    pure_env(E, st, it)
     item = None
     for x, _, s2 in it_next_abstract(E, st, fr, bi, it):
         if x is not None:
-            item = x if item is None else E.join_vals(st, item, x)
+            y = import_value(E, st, s2, x)
+            item = y if item is None else E.join_vals(st, item, y)
     return item
 
 
@@ -710,7 +737,7 @@ def m_iter_adapt(kind):
                 o = iter_arg(E, st, o)
             return ret1(Md("iter", {"k": "zip", "a": it, "b": o}), st)
         if kind == "skip":
-            return ret1(Md("iter", {"k": "skip", "inner": it, "n": args[1]}), st)
+            return ret1(it_advance(E, st, it, args[1]), st)
         if kind == "take":
             return ret1(Md("iter", {"k": "take", "inner": it, "n": args[1]}), st)
         if kind == "chain":
@@ -753,12 +780,12 @@ def m_iter_sum(E, st, fr, bi, callee, args, dest_ty):
     it = iter_arg(E, st, args[0])
     t = E.prog.ty(dest_ty)
     n = it_len(E, st, it)
-    item = it_elem(E, st, fr, bi, it)
+    with pinned(E.ctx, n, it):
+        item = it_elem(E, st, fr, bi, it)
     if t.tag == "Float":
         return ret1(Fl(-INF, INF, True, ("sum", getattr(item, "tag", None))), st)
     if item is None:
         return ret1(E.ctx.const_int(st, 0, dest_ty), st)
-    item = deref(E, st, item) if type(item) is Pt else item
     if type(item) is not I:
         raise Unsupported("sum of non-int")
     lo, hi = st.itv[item.vid]
@@ -800,24 +827,14 @@ def m_collect(E, st, fr, bi, callee, args, dest_ty):
             items.append(item)
         if okk:
             if not items:
-                return ret1(Sq(E.ctx.top_value(s, generic_args(t)[0]), n, None, None), s)
+                return ret1(Sq(BOT, n, None, None), s)
             elem = items[0]
             for x in items[1:]:
                 elem = E.join_vals(s, elem, x)
             return ret1(Sq(elem, n, {i: x for i, x in enumerate(items)}, None), s)
-    s2 = st.copy()
-    sm = it_smash(E, s2, it)
-    item = None
-    final = s2
-    for x, _, s3 in it_next(E, s2, fr, bi, sm):
-        if x is not None:
-            item = x
-            final = s3
-    if item is None:
-        return ret1(Sq(E.ctx.top_value(st, generic_args(t)[0]), n, None, None), st)
-    # the closure side effects are not tracked for collect over long iterators (pure closures only)
-    item = E.copy_fresh(final, item)
-    return ret1(Sq(item, n, None, None), final)
+    with pinned(E.ctx, n, it):
+        item = it_elem(E, st, fr, bi, it)
+    return ret1(Sq(item if item is not None else BOT, n, None, None), st)
 
 
 def m_for_each_opaque(E, st, fr, bi, callee, args, dest_ty):
